@@ -289,6 +289,10 @@ def _bcd_backend_inner(chk):
         ("preference", [(0, 0), (R(4, 5), 0)], [(R(1, 10), 0), (R(3, 10), 0)], R(1)),
         ("nothing in radius", [(0, 0), (5, 0)], [(2, 2), (8, 8)], R(1)),
         ("single", [(0, 0), (3, 3)], [(R(1, 10), R(1, 10)), (9, 9)], R(1, 2)),
+        # edge inputs: one point on either side; a pair exactly AT the radius (the search is documented as "within": d <= eps or d < eps
+        # must agree between the counting pass, the filling pass and the reference)
+        ("one against one", [(0, 0)], [(R(1, 4), 0)], R(1)),
+        ("one against many", [(0, 0)], [(R(1, 4), 0), (R(1, 5), 0), (3, 0)], R(1)),
     ]
     for name, PU, PS, eps in clouds:
         nu, ns = len(PU), len(PS)
